@@ -292,39 +292,12 @@ def hypField (fs0 : FS) (invs : List String) : String :=
       | _ => "na"
   | [] => "na"
 
-/-- Class of the known finding `rej-dir-order`: the reject path `<name>.rej` of one name the range mentions is a
-directory on the way to the reject path of another (`f` and `f.rej/y`).  Whether writing `f.rej/y.rej` is skipped
-(directory missing) or fails (ENOTDIR) then depends on whether `f.rej` has been written yet — and the parallel
-driver writes the rejects worker by worker, the single-threaded one in series order.  Mirror of
-`ParSucceeds.RejPrefixFree` (negated). -/
-def rejDirOrder (fs : FS) (cfg : Cfg) (range : List Series.Entry) : Bool :=
-  let names : List Bytes := range.flatMap (fun entry =>
-    match patchKey cfg entry.name with
-    | none => []
-    | some pk =>
-      match fs.readFile pk with
-      | .error _ => []
-      | .ok (bytes, _) =>
-        match Parse.parsePatch bytes entry.strip false with
-        | .error _ => []
-        | .ok patch => patch.fps.flatMap (fun fp =>
-            (match fp.old with | some n => [n] | none => []) ++ (match fp.new with | some n => [n] | none => [])))
-  let ks := names.filterMap (fun n => safeKey (makeRejName n))
-  ks.any (fun k => ks.any (fun k' => k.length < k'.length && k'.take k.length == k))
-
-def rejDirOrderInv (fs : FS) (a : String) : Bool :=
-  let inv := parseArgs (if a == "-" then [] else a.splitOn " ") ()
-  match plan inv.cfg fs with
-  | .apply range => rejDirOrder fs inv.cfg range
-  | _ => false
-
 /-- the class of known finding the invocation falls in, if its outcome differs from the specification.
 `refused`: the implementation exited with status 1 and left the tree as it was. -/
 def knownClass (fs : FS) (a : String) (refused : Bool) (implT specT : FS) : Option String :=
   if termBrokenInv fs a then some "unterminated-line-mid-file"
   else if refused && dirFileSwapInv fs a then some "dir-file-swap"
   else if emptyDirKeptInv fs a implT specT then some "empty-dir-kept"
-  else if rejDirOrderInv fs a then some "rej-dir-order"
   else none
 
 /-- `pushSpec` evaluated against the implementation: starting from the tree the implementation left
@@ -507,14 +480,10 @@ def step (fields : List String) : String :=
     -- C06: a parallel run (any forced schedule) must equal the single-threaded specification, provided all
     -- patches of the range parse (the parallel driver parses the whole range up front)
     let specV := specVerdict (parseTree tree) invs impl
-    -- known finding rej-dir-order: which of the two orders the parallel main thread writes the rejects in depends on
-    -- the order in which the workers reported (the model takes worker order): neither the outcome nor the
-    -- correspondence is determined for such a workspace
-    let rdo := par && invs.any (fun a => rejDirOrderInv (parseTree tree) a)
-    let c06 := if rdo then "KNOWN:rej-dir-order" else if !par then "na" else if !(invs.all (rangeParses (parseTree tree))) then "na"
+    let c06 := if !par then "na" else if !(invs.all (rangeParses (parseTree tree))) then "na"
                else if specV.startsWith "KNOWN:" then specV
                else if specV != "ok" then "FAIL:differs-from-single-threaded:" ++ (specV.splitOn " ").headD "" else if !ok then "MODEL" else "ok"
-    s!"{cid} eq={boolS (ok || c06 == "na" && par || rdo)} firstbad={optNatS firstBad} C06={c06} SPEC={specV} ABS={absVerdict (parseTree tree) invs impl} C08S={c08Statement (parseTree tree) invs impl} C13={c13 (parseTree tree) invs impl specV} C10={c10 invs impl ioFlags} C15={c15 impl} C19={c19 impl} C11={c11 impl} C07={c07 impl} HYP={hypField (parseTree tree) invs} model={"|".intercalate m}"
+    s!"{cid} eq={boolS (ok || c06 == "na" && par)} firstbad={optNatS firstBad} C06={c06} SPEC={specV} ABS={absVerdict (parseTree tree) invs impl} C08S={c08Statement (parseTree tree) invs impl} C13={c13 (parseTree tree) invs impl specV} C10={c10 invs impl ioFlags} C15={c15 impl} C19={c19 impl} C11={c11 impl} C07={c07 impl} HYP={hypField (parseTree tree) invs} model={"|".intercalate m}"
   | _ => "bad-line"
 
 /-- Engine `F` (C18): one invocation with the k-th file-system write failing.
